@@ -43,7 +43,8 @@ def configs(draw, exhaustive=False):
   # leave and rejoin (what DYNAMIC_ROUTER does); the property speaks about the set configured afterwards
   extras = []
   for _ in range(draw(st.integers(0, 2))):
-    e = (draw(st.sampled_from(SERVERS + ['gone-1', 'gone-2'])), draw(st.sampled_from(INSTANCES)))
+    # often another instance on a server that stays configured (its departure must not count the server out)
+    e = (draw(st.sampled_from(servers + servers + SERVERS + ['gone-1', 'gone-2'])), draw(st.sampled_from(INSTANCES + ['x9'])))
     if e not in used and e not in [(x[0], x[2]) for x in extras]:
       extras.append([e[0], 2004, e[1]])
   bounce = draw(st.lists(st.integers(0, len(dests) - 1), unique=True, max_size=2)) if len(dests) > 1 else []
@@ -222,6 +223,8 @@ def execute(ctx, case):
     classes.append('two nodes with colliding node hashes')
   if case.get('extras') or case.get('bounce'):
     classes.append('membership changed before the look-ups')
+  if any(e[0] in per_server for e in case.get('extras', [])):
+    classes.append('an instance left a server that stays configured')
   ctx.note(dict(case, names=case['names'][:3]), nontrivial=nt, classes=classes,
            key=[case['dests'], case['rf'], case['diverse'], case['router'], case['hash'], case['keys']])
 
